@@ -88,6 +88,8 @@ where
         })?;
         self.cas_inner.fdatasync(file_to_sync)?;
 
+        #[cfg(feature = "verif-hooks")]
+        crate::verif::point("commit:after_sync");
         let blob_hash = BlobHash::from_bytes(*self.hasher.finalize().as_bytes());
 
         // Register intent - returns a guard that will cleanup on drop if not committed
@@ -104,6 +106,8 @@ where
             .commit_blob(self.temp_file.path(), &blob_hash)
             .map_err(crate::LibError::Cas)?;
 
+        #[cfg(feature = "verif-hooks")]
+        crate::verif::point("commit:after_rename");
         let delete_fn = |hashes: &[BlobHash]| -> Result<(), crate::cas_manager::CasManagerError> {
             self.cas_inner.cas_manager.delete_blobs(hashes).map(|_| ())
         };
